@@ -57,9 +57,39 @@ func project(key string, v interface{}) interface{} {
 	case *string:
 		return *x
 	case *[]dastard.FullTriggerState:
-		return *x
+		return triggerTable(*x)
 	}
 	return v
+}
+
+// triggerTable: the trigger settings as a table by channel (a later entry of the list wins, as in
+// PrepareRun).  Two TRIGGER messages mean the same iff their tables are equal, however channels are grouped.
+func triggerTable(fts []dastard.FullTriggerState) map[int]dastard.TriggerState {
+	t := map[int]dastard.TriggerState{}
+	for i := range fts {
+		for _, c := range fts[i].ChannelIndices {
+			t[c] = fts[i].TriggerState
+		}
+	}
+	return t
+}
+
+// parseTriggerTable reads either form: the list dastard publishes or the table of the canonical text.
+func parseTriggerTable(js string) (map[int]dastard.TriggerState, error) {
+	var fts []dastard.FullTriggerState
+	if err := json.Unmarshal([]byte(js), &fts); err == nil {
+		return triggerTable(fts), nil
+	}
+	t := map[int]dastard.TriggerState{}
+	err := json.Unmarshal([]byte(js), &t)
+	return t, err
+}
+
+// environment of every dastard the harness starts: variables named like the persisted topics (a lab script
+// may export STATUS=ok or TRIGGER=external); they must not reach the configuration
+func decoyEnv() []string {
+	return []string{"STATUS=ok", "TRIGGER=external", "WRITING=/env/base/path", "ROACH=10.0.0.7", "ABACO=1", "LANCERO=1",
+		"TRIANGLE=1", "SIMPULSE=1", "TESMAPFILE=/env/map.txt", "VERBOSE=true", "STATELABEL=env", "MIX=0.5", "___1=env"}
 }
 
 func lowerKeys(v interface{}) interface{} {
